@@ -378,13 +378,66 @@ func runC15(r *mon.Run) {
 	r.SetRule("part 1: comment injection (own item / end of item / last item; Comment and Commentf) into Block, Defs, Struct, Interface, case bodies and the File of real and generated programs, 22 text shapes (code-looking, braces, quotes, unicode, multi-line, leading/trailing newline, '%', inner // and /*) each with a unique marker; judged on go/scanner token streams (formatted vs. the same program without comments) and on the raw rendering (text, style, count). part 2: file-level scenarios: 0-4 header comments x 0-4 package comments (incl. empty entries) x 11 canonical paths x bodies x imports x NoFormat, judged on ast.File.Doc, the comment groups above the package clause and the package-clause line. non-trivial = >=1 comment injected; distinct by (file, seed) / scenario text")
 	r.Assume("texts avoid the documented exclusions (leading // or /*, any */), \\r and build-constraint lines; one comment per line (no end-of-item comment on a Case(...).Block(...) item); text containment is judged on the NoFormat rendering because gofmt rewrites doc comment text itself")
 	c15NegControls(r)
+	c15Lifetime(r)
 	items := corpusList(r, "C15", 700, 200, 3000, 1)
 	mon.Parallel(len(items), func(i int) { c15CorpusCase(r, items[i]) })
 	n := r.Pick(3000, 300000)
 	mon.Parallel(n, func(i int) { c15FileCase(r, int64(i)) })
 }
 
+// c15Lifetime: the text of a comment is fixed when Comment / Commentf is called: operands that the caller changes or
+// reuses afterwards (the variadic slice, a value behind a pointer, a Stringer) do not change the comment.
+type c15Name struct{ s string }
+
+func (n *c15Name) String() string { return n.s }
+
+func c15Lifetime(r *mon.Run) {
+	c := mon.Case{Gen: "lifetime", Seed: r.Seed}
+	for _, form := range []string{"function", "statement", "group"} {
+		args := []interface{}{"AlphaQ", 1}
+		name := &c15Name{"StringerOneQ"}
+		list := []int{1, 2}
+		var items []jen.Code
+		add := func(format string, a ...interface{}) {
+			switch form {
+			case "function":
+				items = append(items, jen.Commentf(format, a...))
+			case "statement":
+				items = append(items, jen.Id("x").Call().Commentf(format, a...))
+			default:
+				jen.BlockFunc(func(g *jen.Group) { items = append(items, g.Commentf(format, a...)) })
+			}
+		}
+		add("%s has size %d", args...)
+		args[0], args[1] = "BetaQ", 2
+		add("%s has size %d", args...)
+		args[0], args[1] = "GammaQ", 3
+		add("%v and %v", name, list)
+		name.s = "StringerTwoQ"
+		list[0] = 99
+		f := jen.NewFile("p")
+		f.NoFormat = true
+		f.Func().Id("f").Params().Block(items...)
+		src, fail := renderFile(f)
+		if fail != "" {
+			r.Violate("comment-render-panic", c, "Commentf (%s form): %s", form, fail)
+			continue
+		}
+		for _, want := range []string{"AlphaQ has size 1", "BetaQ has size 2", "StringerOneQ and [1 2]"} {
+			if !strings.Contains(string(src), "// "+want) {
+				r.Violate("comment-text-lost", c, "Commentf (%s form): the comment %q, whose operands were changed or reused after the call, is not in the rendering:\n%s", form, want, mon.Trunc(string(src), 600))
+			}
+		}
+		r.Count("commentf_operands_changed_after_the_call", 3)
+	}
+	r.Eval("lifetime", true)
+}
+
 func replayC15(r *mon.Run, c mon.Case) {
+	if c.Gen == "lifetime" {
+		c15Lifetime(r)
+		return
+	}
 	if c.Gen == "file-level" {
 		c15FileCase(r, c.Index)
 		return
